@@ -73,6 +73,17 @@ class SStr(object):
         return "SStr(%s)" % self.z
 
 
+class RawStr(object):
+    """a string the lemma quantifies over only THROUGH its strip(): the only operation allowed is
+    .strip() (default white space), which yields a free string without leading / trailing white
+    space.  (Relating an arbitrary string to its stripped core needs two Kleene stars around the
+    core; neither z3 nor cvc5 decides the resulting queries within a minute - measured.)"""
+
+    def __init__(self, name):
+        self.name = name
+        self.core = z3.String(name + ".strip()")
+
+
 class SInt(object):
     def __init__(self, z):
         self.z = z
@@ -149,7 +160,7 @@ def zint(v):
 
 
 def is_sym(v):
-    return isinstance(v, (SStr, SInt, SBool, SSplit, SymMap))
+    return isinstance(v, (SStr, SInt, SBool, SSplit, SymMap, RawStr))
 
 
 # -- the executor -------------------------------------------------------------------------------
@@ -633,7 +644,7 @@ class Executor(object):
             if fn is not None:
                 return BoundMethod(o, fn)
             raise _Raise(AttributeError(name))
-        if isinstance(o, (SStr, SSplit, SymMap, LocalDict)):
+        if isinstance(o, (SStr, SSplit, SymMap, LocalDict, RawStr)):
             return SymMethod(o, name)
         if isinstance(o, (SInt, SBool, Opaque)):
             raise Unsupported("attribute %s of %s" % (name, type(o).__name__))
@@ -710,6 +721,9 @@ class Executor(object):
             # concrete callee with a symbolic argument: only a few are understood
             slf = getattr(f, "__self__", None)
             name = getattr(f, "__name__", "")
+            if isinstance(slf, list) and name == "append" and len(args) == 1 and not kwargs:
+                slf.append(args[0])  # a list local to this path (paths re-execute from scratch)
+                return None
             if isinstance(slf, str) and name == "join":
                 raise Unsupported("str.join with symbolic parts")
             if isinstance(slf, dict) and name in ("get", "__contains__", "__getitem__"):
@@ -853,6 +867,16 @@ class Executor(object):
             raise Unsupported("dict method %s" % name)
         if isinstance(recv, SSplit):
             raise Unsupported("list method %s on a split result" % name)
+        if isinstance(recv, RawStr):
+            if name == "strip" and (not args or args[0] is None):
+                r = recv.core
+                n = z3.Length(r)
+                for c in (z3.Or(n == 0, z3.And([z3.SubString(r, 0, 1) != z3.StringVal(ch) for ch in WS])),
+                          z3.Or(n == 0, z3.And([z3.SubString(r, n - 1, 1) != z3.StringVal(ch) for ch in WS]))):
+                    self.side.append(c)
+                self.bounds_used.add("the typed answer enters only through answer.strip() (CPython's strip is trusted); the lemma quantifies over every string without leading/trailing white space (the %d code points below U+0100 that CPython strips)" % len(WS))
+                return SStr(r)
+            raise Unsupported("the raw answer is used other than through .strip(): %s" % name)
         s = recv
         z = s.z
         if name == "split":
